@@ -48,6 +48,14 @@ def rule_raw_text(check):
 
 
 def run(check):
+    # a user declaration with a reserved-prefix name next to the injected `let` is a redeclaration
+    # (SyntaxError): the refusal must see every identifier of the block
+    from . import c06
+    from .. import travrules as T
+
+    check.rule("TRAV-IDENT", "every identifier of a block reaches the reserved-prefix collision check (otherwise the injected `let` can redeclare a user declaration: SyntaxError)")
+    check.guarded("TRAV-IDENT", lambda c: T.run_cover(c, "TRAV-IDENT", "OperationTransformVisitor", {T.IDENT}, [], {"visit_mut_expr", "visit_mut_ident", "visit_mut_block_stmt"}, block_override_ok=lambda tr, paths: True, ignore_missing=lambda m: m.endswith("Expr::Arrow.0.body"), also_vtys=tuple(sorted(T.registering_visitors(c.prog)))))
+    check.guarded("REFUSAL-GATE", c06.rule_refusal)
     check.guarded("RAW-TEXT", rule_raw_text)
     check.guarded("PAREN-WRAP", X.rule_paren_wrap)
     check.guarded("GROUP", X.rule_hoist_paren)
